@@ -304,6 +304,29 @@ func checkC16(c DocCase, r *rec.Rec) error {
 	if !n4.Equals(n) || !n.Equals(n4) {
 		return viol(rec.Violated("the document read from YAML is %s, read from JSON it is %s\nyaml:\n%s", showText(n4.Json()), jsonText, ye))
 	}
+	// the same YAML document with the decorations other writers add: a
+	// document start marker, a document end marker, comment lines
+	if !val.IsVoid(v) {
+		body := strings.TrimSuffix(ye, "\n")
+		decorated := []string{"---\n" + ye, ye + "...\n", "# written by a tool\n" + ye, ye + "# end\n", "%YAML 1.1\n---\n" + ye}
+		_, isArr := v.([]val.V)
+		_, isObj := v.(map[string]val.V)
+		if !strings.Contains(body, "\n") && !isArr && !isObj { // a block collection cannot start on the marker line
+			decorated = append(decorated, "--- "+body+"\n", body+" # note\n", "---\n"+body+"\n...\n")
+		}
+		for _, dy := range decorated {
+			var n5 jd.JsonNode
+			if msg, p := jdx.Guard(func() { n5, rerr = jd.ReadYamlString(dy) }); p {
+				return viol(rec.Violated("ReadYamlString panicked: %s\n%s", msg, dy))
+			}
+			if rerr != nil {
+				return viol(rec.Violated("ReadYamlString rejects a YAML form of %s: %v\nyaml:\n%s", jsonText, rerr, dy))
+			}
+			if !n5.Equals(n) || !n.Equals(n5) {
+				return viol(rec.Violated("the document read from YAML is %s, read from JSON it is %s\nyaml:\n%s", showText(n5.Json()), jsonText, dy))
+			}
+		}
+	}
 	nontrivial := usesPool(v)
 	cls := []string{"root=" + val.Kind(v)}
 	r.Case(jsonText, nontrivial, cls...)
